@@ -12,7 +12,8 @@ EXPLANATION = (
     "receives the marks; every predecessor of every popped state is examined), result typestate (filter "
     "'not in final_states' of the visited collection, sorted on every path to the return, duplicate-free by "
     "construction) and the reversed-table normal forms (one (target, source) pair per transition, grouping keeps "
-    "multiplicity, one entry per state). A discharged rule holds for graphs of every size and shape.")
+    "multiplicity, one entry per state). A discharged rule holds for graphs of every size and shape."
+    ' Also: nothing is kept between searches in module-level state (pre:C10.2), and a shared set of marks is not replaced when it is still empty (C07.3).')
 ASSUMPTIONS = [
     "transition lists are lists of 2-tuples with the successor index in slot 1 (validated by Node.check_next_states)",
     "the recognised search idiom is an explicit worklist with a visited set/list; other shapes are reported undecided",
